@@ -44,8 +44,8 @@ var points = []string{"launching", "configuring", "configured", "starting", "run
 // ---- input ---------------------------------------------------------------------------------
 
 type action struct {
-	kind string // env | kill | term | drop | destroy | stubborn | park | unpark | hide | mute | heal
-	arg  string // env: point; drop: clean|abrupt [heal]; destroy: env index; stubborn: silent|killing; park: "<env index> destroy|cleanup"
+	kind string // env | kill | term | drop | destroy | stubborn | park | unpark | hide | mute | heal | sparse | nudge
+	arg  string // env: point; drop: clean|abrupt [heal]; destroy: env index; stubborn: silent|killing; park: "<env index> destroy|cleanup"; sparse: none|exec|agent|both
 }
 
 // scenario = (K KV0 (ACTION…))
@@ -112,6 +112,20 @@ func parseScenario(in string) (*scenario, error) {
 			//         the stream is down, so no quiet point lies between the healing and the next subscription.
 			if act.arg != "" {
 				return nil, fmt.Errorf("scenario: (%s) takes no argument", act.kind)
+			}
+		case "sparse":
+			// From here on the status updates the MASTER builds — its answers to a RECONCILE, the reconciliation updates it
+			// volunteers ((nudge)) — lack the OPTIONAL field executor_id (exec), agent_id (agent) or both; (sparse none): complete
+			// again. mesos.TaskStatus makes both fields optional; the AliECS executor's updates carry them, a master's own need
+			// not (it copies executor_id only if its task record has one). What the core owns must not depend on it.
+			if _, ok := sim.ParseStatusOmit(act.arg); !ok {
+				return nil, fmt.Errorf("scenario: bad (sparse none|exec|agent|both)")
+			}
+		case "nudge":
+			// the master volunteers a reconciliation update (latest state) about every task it holds alive and would report,
+			// without any re-subscription (what an explicit reconciliation, or a master re-sending its view, looks like to the core)
+			if act.arg != "" {
+				return nil, fmt.Errorf("scenario: (nudge) takes no argument")
 			}
 		case "stubborn":
 			// the tasks alive now outlive every KILL from here on: silent = the KILL has no effect at all (lost
@@ -238,6 +252,7 @@ type envRec struct {
 	pending chan error // result of the operation left in flight (nil if none)
 	cancel  context.CancelFunc
 	dead    bool // destroyed, or its core is gone
+	asked   bool // the harness has asked for its destruction (the request may still be in flight)
 }
 
 type runner struct {
@@ -341,6 +356,14 @@ func (r *runner) snapshot(phase string) error {
 		envOf[t.TaskID] = t.EnvID
 	}
 	var own, envs *sx.Node
+	// environments the harness itself asked to destroy let go of their tasks on purpose
+	leaving := map[string]bool{}
+	for _, e := range r.envs {
+		if e.id != "" && (e.dead || e.asked) {
+			leaving[e.id] = true
+		}
+	}
+	prevLoose := ""
 	err := sim.Poll("the core's roster and environment list agree", ceiling, func() (bool, error) {
 		ctx, cancel := context.WithTimeout(context.Background(), 30*time.Second)
 		defer cancel()
@@ -353,17 +376,34 @@ func (r *runner) snapshot(phase string) error {
 			return false, &sim.InfraError{What: "GetTasks", Err: err}
 		}
 		listed := map[string]bool{}
+		looseKey := ""
 		envs = sx.L(sx.A("envs"))
 		for _, e := range er.GetEnvironments() {
 			// … and what its roles hold: the environment's own view of its tasks, independent of the roster
+			// … and the tasks its roles reference that are NOT locked (Task.isLocked() false: to every sweep of unowned tasks
+			// they are tasks outside any environment) — for an environment nobody asked to destroy
 			row := sx.L(sx.A("E:"+e.GetId()), sx.A(e.GetState()))
+			loose := sx.L(sx.A("loose"))
 			for _, t := range e.GetTasks() {
 				if t.GetLocked() {
 					row.Add(sx.A("T:" + t.GetTaskId()))
+				} else if !leaving[e.GetId()] && t.GetTaskId() != "" {
+					loose.Add(sx.A("T:" + t.GetTaskId()))
 				}
+			}
+			if loose.Len() > 1 {
+				sort.SliceStable(loose.List[1:], func(i, j int) bool { return loose.List[1+i].String() < loose.List[1+j].String() })
+				row.Add(loose)
+				looseKey += row.String()
 			}
 			envs.Add(row)
 			listed[e.GetId()] = true
+		}
+		// a referenced task that is not locked is reported only as a STATE: seen twice in a row (an environment the core
+		// gives up by itself lets go of its tasks a moment before it leaves the list)
+		if looseKey != prevLoose {
+			prevLoose = looseKey
+			return false, nil
 		}
 		own = sx.L(sx.A("own"), sx.A(phase))
 		settled := true
@@ -467,6 +507,41 @@ func (r *runner) heal() {
 		r.mark(sx.L(sx.A("unmute")))
 	}
 }
+
+// sparse: what the master's own status updates lack from now on (see parseScenario).
+func (r *runner) sparse(arg string) {
+	o, _ := sim.ParseStatusOmit(arg)
+	r.w.Master.SetReconcileOmit(o)
+	r.mark(sx.L(sx.A("sparse"), sx.A(arg)))
+}
+
+// nudge: the master volunteers a reconciliation update about every task it holds alive (and would report), built like
+// its answers to a RECONCILE — lacking what (sparse …) says —, then a quiet point.
+func (r *runner) nudge() error {
+	if !r.w.CoreAlive() || !r.w.Master.Subscribed() {
+		return infraf("nudge without a subscribed core")
+	}
+	hidden := map[string]bool{}
+	for _, id := range r.w.Master.HiddenFromReconcile() {
+		hidden[id] = true
+	}
+	om := r.w.Master.ReconcileOmit()
+	for _, t := range r.w.Tasks() {
+		if t.Terminal || hidden[t.TaskID] {
+			continue
+		}
+		st, ok := mesos.TaskState_value[t.MesosState]
+		if !ok {
+			return infraf("nudge: unknown task state %s", t.MesosState)
+		}
+		if err := r.w.Master.InjectTaskStatus(t.TaskID, mesos.TaskState(st), true, om, volunteered); err != nil {
+			return &sim.InfraError{What: "nudge", Err: err}
+		}
+	}
+	return r.quiet(2, "pre")
+}
+
+const volunteered = "volunteered"
 
 // stubborn: every task the master holds alive now outlives every KILL from here on (see parseScenario).
 // The rules are per task id, so tasks launched later behave normally.
@@ -664,6 +739,7 @@ func (r *runner) bring(point string) error {
 		}
 		if point == "teardown" {
 			r.w.SetOutcome(c0, sim.EvKill, sim.Outcome{Kind: sim.OK, Gate: e.gate, Times: 1})
+			e.asked = true
 			r.mark(sx.L(sx.A("destroy"), sx.A("E:"+e.id)))
 			inflight(func(ctx context.Context) error {
 				_, err := r.w.Client().DestroyEnvironment(ctx, &pb.DestroyEnvironmentRequest{Id: e.id})
@@ -680,6 +756,7 @@ func (r *runner) destroy(e *envRec) error {
 	if e.id == "" {
 		return infraf("destroy of an environment without id")
 	}
+	e.asked = true
 	r.mark(sx.L(sx.A("destroy"), sx.A("E:"+e.id)))
 	ctx, cancel := gctx()
 	defer cancel()
@@ -732,6 +809,7 @@ func (r *runner) park(e *envRec, via string) error {
 	r.parks++
 	p := &parkRec{e: e, gate: fmt.Sprintf("park%d", r.parks), pending: make(chan error, 1)}
 	r.w.Master.HoldCalls("KILL", p.gate, ids...)
+	e.asked = true
 	r.mark(sx.L(sx.A("destroy"), sx.A("E:"+e.id)))
 	c := r.w.Client()
 	switch via {
@@ -895,7 +973,8 @@ func runScenario(sc *scenario, verbose bool) (string, error) {
 	r := &runner{w: w, sc: sc, life: 1, seenEnv: map[string]bool{"": true}}
 	defer r.cancelInflight()
 	defer r.releaseGates()
-	defer w.Master.UnhideFromReconcile() // drops this master's entry of the simulator's side table
+	defer w.Master.UnhideFromReconcile()                // drops this master's entry of the simulator's side table
+	defer w.Master.SetReconcileOmit(sim.StatusOmit{}) // … and of the other one
 	w.AddAgent(sim.AgentSpec{Host: "host1", Detector: "TST"})
 	w.AddAgent(sim.AgentSpec{Host: "host2", Detector: "TST"})
 	for j := 0; j < sc.k; j++ {
@@ -929,6 +1008,10 @@ func runScenario(sc *scenario, verbose bool) (string, error) {
 			r.heal()
 		case "stubborn":
 			r.stubborn(a.arg)
+		case "sparse":
+			r.sparse(a.arg)
+		case "nudge":
+			err = r.nudge()
 		case "park":
 			var i int
 			var via string
@@ -1091,10 +1174,25 @@ func (r *runner) observation() string {
 			case "":
 			case "REASON_RECONCILIATION":
 				reason = "recon"
+				if t.MsgDetail == volunteered {
+					reason = "vol" // not the answer to a RECONCILE: the master sent it of its own accord
+				}
 			default:
 				reason = "other"
 			}
-			out.Add(sx.L(sx.A("upd"), sx.A(tname(t.TaskIDs[0])), sx.A(short(t.State)), sx.A(reason), sx.B(t.Delivered)))
+			u := sx.L(sx.A("upd"), sx.A(tname(t.TaskIDs[0])), sx.A(short(t.State)), sx.A(reason), sx.B(t.Delivered))
+			// an update about a task of the master's table that lacks an optional identity field says so
+			if _, known := envOf[t.TaskIDs[0]]; known {
+				switch {
+				case t.AgentID == "" && t.ExecutorID == "":
+					u.Add(sx.A("noids"))
+				case t.AgentID == "":
+					u.Add(sx.A("noagent"))
+				case t.ExecutorID == "":
+					u.Add(sx.A("noexec"))
+				}
+			}
+			out.Add(u)
 		case t.Dir == "call" && t.Type == "KILL" && len(t.TaskIDs) == 1:
 			out.Add(sx.L(sx.A("kill"), sx.A(tname(t.TaskIDs[0])), sx.I(t.HTTP)))
 		case t.Dir == "call" && t.Type == "TEARDOWN":
